@@ -200,8 +200,13 @@ func (r *Reconciler) buildStrategyParams(logger logr.Logger, daemonset *datadogh
 	var nodesFilter []string
 	if daemonset.Status.Canary != nil {
 		strategyParams.CanaryNodes = daemonset.Status.Canary.Nodes
-		if daemonset.Status.ActiveReplicaSet == replicaset.Name {
+		switch rsStatus {
+		case strategy.ReplicaSetStatusActive:
 			nodesFilter = strategyParams.CanaryNodes
+		case strategy.ReplicaSetStatusCanary:
+			// the canary replica set only manages the canary nodes: the pods of every other node belong to the active
+			// replica set, also when the canary template does not fit those nodes
+			nodesFilter = nonCanaryNodes(nodeList, strategyParams.CanaryNodes)
 		}
 	}
 
@@ -209,6 +214,22 @@ func (r *Reconciler) buildStrategyParams(logger logr.Logger, daemonset *datadogh
 	strategyParams.NodeByName, strategyParams.PodByNodeName, strategyParams.PodToCleanUp, strategyParams.UnscheduledPods = r.FilterAndMapPodsByNode(logger.WithValues("status", string(rsStatus)), replicaset, nodeList, podList, nodesFilter)
 
 	return strategyParams, nil
+}
+
+// nonCanaryNodes returns the names of the listed nodes that are not canary nodes.
+func nonCanaryNodes(nodeList *strategy.NodeList, canaryNodes []string) []string {
+	isCanary := make(map[string]bool, len(canaryNodes))
+	for _, name := range canaryNodes {
+		isCanary[name] = true
+	}
+	var names []string
+	for _, item := range nodeList.Items {
+		if !isCanary[item.Node.Name] {
+			names = append(names, item.Node.Name)
+		}
+	}
+
+	return names
 }
 
 func (r *Reconciler) applyStrategy(logger logr.Logger, daemonset *datadoghqv1alpha1.ExtendedDaemonSet, now metav1.Time, strategyParams *strategy.Parameters) (*strategy.Result, error) {
